@@ -267,8 +267,8 @@ theorem unbox_reads_published (v p : Val) (xs : List Boxed) :
     ∧ Code.unboxNode (Boxed.localRef p).toVal = .ok (.localRef p)
     ∧ Code.unboxNode (Boxed.remoteRef p).toVal = .ok (.remoteRef p) := by
   refine ⟨?_, ?_, ?_, ?_⟩ <;>
-    simp [Code.unboxNode, Boxed.toVal, c_labelValue, c_labelTuple, c_labelLocalRef, c_labelRemoteRef,
-      LABEL_VALUE, LABEL_TUPLE, LABEL_LOCAL_REF, LABEL_REMOTE_REF]
+    simp [Code.unboxNode, Code.unpack2, Code.numEq, Boxed.toVal, c_labelValue, c_labelTuple, c_labelLocalRef,
+      c_labelRemoteRef, LABEL_VALUE, LABEL_TUPLE, LABEL_LOCAL_REF, LABEL_REMOTE_REF]
 
 /-! ### (6b) below `(kind, seq, args)`: per-handler argument layouts, tied to the live code by generated facts
 
@@ -294,11 +294,14 @@ theorem call_sites_fit_published :
 /-- all probes ran (none of the live operations raised against a conforming responder) -/
 theorem recorded_probes_ran : Gen.Recorded.probeErrors = [] := by decide
 
-/-- **each operation issues its published handler(s)**: getattr → 4, setattr → 6, call → 7, a special method →
-callattr 8, == → cmp 11, leaving a `with` block → ctxexit 19, isinstance → 20, finalisation → del 15, … -/
+/-- **each operation issues its published handler**: getattr → HANDLE_GETATTR, setattr → HANDLE_SETATTR, a call
+(also through `async_` / `timed`) → HANDLE_CALL, a special method → HANDLE_CALLATTR, == → HANDLE_CMP, leaving a `with`
+block → HANDLE_CTXEXIT, isinstance → HANDLE_INSTANCECHECK, finalisation → HANDLE_DEL, …; auxiliary requests (their
+number, order and sequence numbers) are not constrained; every probe that emitted anything is accounted for -/
 theorem operations_use_published_handlers :
-    Gen.Recorded.callSiteRequests.map (fun p => (p.1, requestHandlers p.2))
-      = operationHandlers.map (fun p => (p.1, p.2.map some)) := by decide +kernel
+    probeOperations.all (probeUsed Gen.Recorded.callSiteRequests) = true
+    ∧ Gen.Recorded.callSiteRequests.all (fun p => p.2.isEmpty || probeOperations.any (fun o => o.1 == p.1)) = true := by
+  decide +kernel
 
 /-- **every request the live call sites emitted has the published argument layout**: arities, names as text,
 positional arguments as a tuple, keyword arguments as a tuple of `(name, value)` pairs, id_packs as
@@ -311,18 +314,36 @@ theorem recorded_box_matches_model :
     (Gen.Recorded.boxed.zip boxProbes).all (fun p => p.1.1 == p.2.1 && Val.beq p.1.2 (Code.box p.2.2)) = true
     ∧ Gen.Recorded.boxed.length = boxProbes.length := by decide +kernel
 
-/-- the requests of three live call sites are exactly what the model of `_async_request` builds: getattr, a call
-with keyword arguments (a tuple of pairs, by value), a call passing an object by reference -/
+/-- the `(handler, boxed arguments)` of six live call sites are exactly what the model of `_async_request` / `_box`
+builds (sequence numbers not compared): getattr; calls with keyword arguments — direct, through `async_`, through
+`timed` — as a tuple of pairs by value; a call passing an object by reference; a call passing ANOTHER connection's
+proxy (an object of the sender: REMOTE_REF, never LOCAL_REF) -/
 theorem recorded_requests_match_model :
-    (Gen.Recorded.callSiteRequests.lookup "getattr").map (fun vs => vs.map (Val.beq
-        (Code.requestVal 3 4 (.tup [.ownProxy probeP, .plain (.str [97, 116, 116, 114])])))) = some [true]
-    ∧ (Gen.Recorded.callSiteRequests.lookup "call-kw").map (fun vs => vs.map (Val.beq
-        (Code.requestVal 7 7 (.tup [.ownProxy probeP, .plain (.tuple [.int 3]),
-          .plain (.tuple [.tuple [.str [122], .none], .tuple [.str [121], .tuple [.int 7, .str [107]]]])])))) = some [true]
-    ∧ (Gen.Recorded.callSiteRequests.lookup "call-with-object").map (fun vs => vs.map (Val.beq
-        (Code.requestVal 25 7 (.tup [.ownProxy probeP,
-          .tup [.object probeObj, .tup [.plain (.int 1), .object probeObj]], .plain (.tuple [])])))) = some [true] := by
+    probeEmitted Gen.Recorded.callSiteRequests "getattr" "HANDLE_GETATTR"
+        (.tup [.ownProxy probeP, .plain (.str [97, 116, 116, 114])]) = true
+    ∧ probeEmitted Gen.Recorded.callSiteRequests "call-kw" "HANDLE_CALL"
+        (.tup [.ownProxy probeP, .plain (.tuple [.int 3]),
+          .plain (.tuple [.tuple [.str [122], .none], .tuple [.str [121], .tuple [.int 7, .str [107]]]])]) = true
+    ∧ probeEmitted Gen.Recorded.callSiteRequests "async-call-kw" "HANDLE_CALL"
+        (.tup [.ownProxy probeP, .plain (.tuple [.int 1]), .plain (.tuple [.tuple [.str [98], .int 2]])]) = true
+    ∧ probeEmitted Gen.Recorded.callSiteRequests "timed-call-kw" "HANDLE_CALL"
+        (.tup [.ownProxy probeP, .plain (.tuple [.int 2]), .plain (.tuple [.tuple [.str [99], .tuple [.int 3]]])]) = true
+    ∧ probeEmitted Gen.Recorded.callSiteRequests "call-with-object" "HANDLE_CALL"
+        (.tup [.ownProxy probeP, .tup [.object probeObj, .tup [.plain (.int 1), .object probeObj]], .plain (.tuple [])]) = true
+    ∧ probeEmitted Gen.Recorded.callSiteRequests "call-with-foreign-proxy" "HANDLE_CALL"
+        (.tup [.ownProxy probeP, .tup [.object probeQ], .plain (.tuple [])]) = true := by
   decide +kernel
+
+/-- `Connection._unbox` did on ten boxed values what the model says: by-value leaves, tuples item by item, a LOCAL_REF
+resolved to the very object lent before (unknown key: KeyError), a REMOTE_REF resolved to the existing proxy, unknown
+labels refused (ValueError), a bool label compared with `==`, a package that is not a pair refused -/
+theorem recorded_unbox_matches_model :
+    Gen.Recorded.unboxed.all (fun e =>
+      Code.showDescr (Code.unboxDescr
+        (fun k => if Val.beq k probeObj then some "the-object" else none)
+        (fun p => if Val.beq p probeP then some "the-proxy" else none)
+        (valSize e.2.1 + 2) e.2.1) == e.2.2) = true
+    ∧ Gen.Recorded.unboxed.length = 10 := by decide +kernel
 
 /-- **what `_dispatch_request` sent back** on seven published requests (fed in non-shortest encodings): replies for
 ping / getroot / a keyword-argument call, `MSG_EXCEPTION` with vinegar's tuple
